@@ -363,6 +363,10 @@ def family():
          {'t': 'AddField', 'model': 'Alpha', 'field': 'code', 'ftype': 'CharField', 'initial': None,
           'attrs': [['max_length', '10'], ['null', 'true']]},
          cf('code', '"NEW"', ('null', 'false'))],
+        # ... the freed name goes to a new column, which is renamed in turn
+        [{'t': 'RenameField', 'model': 'Alpha', 'old': 'qty', 'new': 'old_qty', 'db_column': None, 'db_table': None},
+         add('qty', '0'),
+         {'t': 'RenameField', 'model': 'Alpha', 'old': 'qty', 'new': 'stock', 'db_column': None, 'db_table': None}],
         # relation columns with a declared initial value (rows 1..6 exist)
         [rel('boss', 'ForeignKey', '1')],
         [rel('boss', 'ForeignKey', '2'), add('extra', '7'), cf('qty', '0', ('null', 'false'))],
